@@ -38,8 +38,9 @@ Unescape(t) ==
 
 RoundTrip(b) == Unescape(Escape(b)) = b
 
-(* no escape is ambiguous with what follows it: the text of a concatenation is the
-   concatenation of the texts and still reads back (the reason octal escapes must have three
-   digits: <<0, 55>> must not become "\07") *)
-Compositional(b1, b2) == Unescape(Escape(b1) \o Escape(b2)) = b1 \o b2
+(* the text is printable ASCII only (default_value is a proto `string`, it must be valid UTF-8
+   and survive every text tool), and no escape is ambiguous with what follows it: because Escape
+   works byte by byte, RoundTrip(b1 \o b2) is exactly "reading Escape(b1) \o Escape(b2) gives
+   b1 \o b2" - the reason octal escapes must have three digits: <<0, 55>> must not become "\07" *)
+Printable(b) == LET t == Escape(b) IN \A i \in 1..Len(t) : t[i] \in 32..126
 =============================================================================
